@@ -248,6 +248,8 @@ func allNumItems(sv *model.SeqView) bool {
 // from the model-side features of the case (never from what went wrong alone).
 func valueSig(c EvalCase, kind string) string {
 	switch {
+	case c.hasTag("pinned-sugar-literal"):
+		return "panic@rel.newSugarTupleStrict"
 	case c.hasTag("superimposed"):
 		return "seq-superimposed-index"
 	case c.hasTag("bytes-sparse"):
